@@ -96,7 +96,26 @@ pub fn transcript(tier: Tier, seed: u64) -> Vec<String> {
     }
 
     // C03/C04 announced groups on the client (incl. the even prime 2 and tiny moduli, A = 0 cases)
-    let mods = moduli();
+    let mut mods = moduli();
+    // C19 is differential, so it needs no reference: composite and even moduli a server might announce are in
+    // ("whatever modulus the server announced"): both back ends must still agree
+    {
+        let p2 = |e: usize| {
+            let mut b = vec![0u8; e / 8 + 1];
+            b[e / 8] = 1 << (e % 8);
+            U::from_le_bytes(&b)
+        };
+        mods.push(("2^256-1 (composite)", U::from_le_bytes(&[0xFF; 32])));
+        mods.push(("2^255 (even)", p2(255)));
+        mods.push(("N-1 (even)", n.sub(&U::from_u64(1))));
+        mods.push(("N+2 (composite?)", n.add(&U::from_u64(2))));
+        mods.push(("15", U::from_u64(15)));
+        mods.push(("6", U::from_u64(6)));
+        mods.push(("4", U::from_u64(4)));
+        mods.push(("255", U::from_u64(255)));
+        mods.push(("10^20", U::from_u64(10_000_000_000).mul(&U::from_u64(10_000_000_000))));
+        mods.push(("3*2^64", U::from_u64(3).mul(&p2(64))));
+    }
     let gens: Vec<u8> = if tier == Tier::Thorough { (2..=255).collect() } else { vec![2, 3, 5, 7, 11, 13, 64, 128, 183, 250, 251, 254, 255] };
     let a_alpha: Vec<[u8; 32]> = vec![[0u8; 32], le32_from_u64(1), le32_from_u64(2), le32_from_u64(250), n_plus(-1), [0xFF; 32], refmodel::ctr_array::<32>(seed, "t-ga")];
     let b_alpha: Vec<[u8; 32]> = vec![le32_from_u64(1), le32_from_u64(1234567), n_plus(1), [0xFF; 32], refmodel::ctr_array::<32>(seed, "t-gB")];
@@ -190,8 +209,9 @@ pub fn run(tier: Tier, seed: u64) -> i32 {
         mc::util::machinery_error("the C19 driver must be the default-math build");
     }
     let mine = transcript(tier, seed);
-    let fast_bin = "/verif/.build/fast/release/vpcheck";
-    let out_path = mc::report::verif_root().join(".build").join(format!("transcript-fast-{}.txt", tier.name()));
+    let fast_bin_path = mc::report::build_root().join("fast/release/vpcheck");
+    let fast_bin = fast_bin_path.to_str().unwrap();
+    let out_path = mc::report::build_root().join(format!("transcript-fast-{}.txt", tier.name()));
     let st = std::process::Command::new(fast_bin)
         .args(["transcript", tier.name(), out_path.to_str().unwrap()])
         .env("VERIF_SEED", seed.to_string())
